@@ -55,22 +55,25 @@ def primary(clauses):
     return real[0] if real else "none"
 
 
-def diag_suffix(clauses):
-    lost = sorted(c[len("diag.lost."):] for c in clauses
-                  if c.startswith("diag.lost."))
-    gained = sorted(c[len("diag.gained."):] for c in clauses
-                    if c.startswith("diag.gained."))
-    nulls = sorted(c[len("diag.nullentry."):] for c in clauses
-                   if c.startswith("diag.nullentry."))
+def diag_suffix(clause, clauses):
+    """TLC's diagnosis, attached to the clause it explains"""
     out = ""
-    if lost or gained:
-        out += ":lost=%s:gained=%s" % ("+".join(lost), "+".join(gained))
-    if nulls:
-        fam = set(_family(n) for n in nulls)
-        # one defect class: a NULL entry in an array whose element type is
-        # not string (the element types are listed in `what`)
-        out += ":nullentry-in-nonstring-array" if fam - {"string"} else \
-            ":nullentry-in-string-array"
+    if clause.startswith(("Values.string", "Values.char16")):
+        lost = sorted(c[len("diag.lost."):] for c in clauses
+                      if c.startswith("diag.lost."))
+        gained = sorted(c[len("diag.gained."):] for c in clauses
+                        if c.startswith("diag.gained."))
+        if lost or gained:
+            out += ":lost=%s:gained=%s" % ("+".join(lost), "+".join(gained))
+    if clause.startswith("ParserAccepts"):
+        nulls = sorted(c[len("diag.nullentry."):] for c in clauses
+                       if c.startswith("diag.nullentry."))
+        if nulls:
+            fam = set(_family(n) for n in nulls)
+            # one defect class: a NULL entry in an array whose element type
+            # is not string (the element types are listed in `what`)
+            out += ":nullentry-in-nonstring-array" if fam - {"string"} else \
+                ":nullentry-in-string-array"
     return out
 
 
@@ -83,15 +86,31 @@ def _family(et_type):
     return typ
 
 
+def signatures(case, clauses):
+    """identities of a failure: ONE PER FAILING CLAUSE (with the element kind
+    TLC put into it) + TLC's diagnosis (character classes lost / gained,
+    NULL-entry element types), so that a recorded finding never hides another
+    clause failing on the same object.  Positions, modes, depths and concrete
+    values are not part of it (they are in `what`)."""
+    real = sorted(c for c in clauses if not c.startswith("diag."))
+    if not real:
+        real = ["none"]
+    # a first-round difference that is stable makes no second-round noise;
+    # report SecondRound only when it fails on its own or with others
+    prefix = "string:" if case["gen"] == "str" else "obj:"
+    order = {c: i for i, c in enumerate(PRIORITY)}
+
+    def rank(c):
+        for p in PRIORITY:
+            if c == p or c.startswith(p + ".") or c.startswith(p + "@"):
+                return order[p]
+        return len(PRIORITY)
+    real.sort(key=lambda c: (rank(c), c))
+    return ["%s%s%s" % (prefix, c, diag_suffix(c, clauses)) for c in real]
+
+
 def signature(case, clauses):
-    """identity of a failure: failing clause (with the element kind TLC put
-    into it) + TLC's diagnosis (character classes lost / gained, NULL-entry
-    element types).  Positions, modes, depths and concrete values are not part
-    of it (they are in `what`)."""
-    p = primary(clauses)
-    if case["gen"] == "str":
-        return "string:%s%s" % (p, diag_suffix(clauses))
-    return "obj:%s%s" % (p, diag_suffix(clauses))
+    return signatures(case, clauses)[0]
 
 
 # ----------------------------------------------------------------------------
@@ -274,13 +293,14 @@ def describe(case, ev, info, clauses):
 
 
 def report(ctx, case, ev, info, v):
-    sig = signature(case, v["clauses"])
-    ctx.report(sig, describe(case, ev, info, v["clauses"]),
-               {"case": case, "clauses": v["clauses"],
-                "xml": info.get("xml"), "error": info.get("error"),
-                "source": info.get("source"), "got": info.get("got"),
-                "object": repr(info.get("object"))[:2000],
-                "parsed": repr(info.get("parsed"))[:2000]})
+    what = describe(case, ev, info, v["clauses"])
+    rep = {"case": case, "clauses": v["clauses"],
+           "xml": info.get("xml"), "error": info.get("error"),
+           "source": info.get("source"), "got": info.get("got"),
+           "object": repr(info.get("object"))[:2000],
+           "parsed": repr(info.get("parsed"))[:2000]}
+    for sig in signatures(case, v["clauses"]):
+        ctx.report(sig, what, rep)
 
 
 # ----------------------------------------------------------------------------
@@ -557,6 +577,6 @@ def replay(rep):
     print("verdict:", v)
     if not v["ok"]:
         print("VIOLATION property=%s replay=(reproduced) %s" %
-              (rep["property"], signature(case, v["clauses"])))
+              (rep["property"], " ".join(signatures(case, v["clauses"]))))
         return 1
     return 0
